@@ -12,7 +12,10 @@ def parseStatus (j : Json) : R StatusRec := do
 def parseResGroup (j : Json) : R ResGroup := do
   return { name := (← str j "name").toList, isGroup := ← bool j "is_group",
            attrs := Usid.Attrs.store (← parseDict (← fld j "attrs")),
-           status := ← parseStatus (← fld j "status"), lastPixel := ← optInt j "last_pixel" }
+           status := ← parseStatus (← fld j "status"), lastPixel := ← optInt j "last_pixel",
+           otherSource := match j.getObjVal? "other_source" with
+             | .ok (Json.bool b) => b
+             | _ => false }
 
 def statusJson : StatusRec → Json
   | .absent => Json.str "absent"
